@@ -321,8 +321,10 @@ theorem parseFormatEnc_reads (cfg : Cfg) (prev : Nat) (s : St) (src : Src) :
       split <;> exact hv
     · rename_i h; have hv := nextvis_eq_reads h
       split
-      · exact hv.trans (encOption_reads _ _ _ _)
-      · exact hv.trans (encSection_reads _ _ _)
+      · exact hv
+      · split
+        · exact hv.trans (encOption_reads _ _ _ _)
+        · exact hv.trans (encSection_reads _ _ _)
 
 theorem parseFormatEnc_pos (cfg : Cfg) (prev : Nat) (s : St) (src : Src)
     (h : 0 < (parseFormatEnc cfg prev s src).1) : ReadsSome src (parseFormatEnc cfg prev s src).2.2 := by
@@ -349,8 +351,10 @@ theorem parseFormatEnc_pos (cfg : Cfg) (prev : Nat) (s : St) (src : Src)
       have hv := nextvis_some cfg.fmt s src c s1 src1 h
       intro _
       split
-      · exact (hv.trans_right (encOption_reads _ _ _ _)).2
-      · exact (hv.trans_right (encSection_reads _ _ _)).2
+      · exact hv.2
+      · split
+        · exact (hv.trans_right (encOption_reads _ _ _ _)).2
+        · exact (hv.trans_right (encSection_reads _ _ _)).2
 
 theorem sepExit_src (cfg : Cfg) (e : SepExit) (src : Src) : (sepExit cfg e src).2.2 = src := by
   unfold sepExit
